@@ -227,6 +227,8 @@ structure St where
   store : Store
   nodes : Nat → NodeSt
   down : List Nat := []      -- nodes whose session manager was shut down (their CrossNodePool is closed)
+  -- lookups in flight: (asking node, client) ↦ what the first storage round trip (the index read) returned
+  pending : FMap (Nat × Nat) (Option Conn) := FMap.empty
 
 def NodeSt.addConn (n : NodeSt) (c : Conn) : NodeSt := { n with conns := add c n.conns, streams := c :: n.streams }
 def NodeSt.dropConn (n : NodeSt) (c : Conn) : NodeSt := { n with conns := rm c n.conns }
@@ -238,7 +240,7 @@ def NodeSt.addAuth (n : NodeSt) (c : Conn) : NodeSt := { n with ctrl := add c n.
 /-- After `onClose`: nothing registered any more, every stream closed (the stream table stays). -/
 def NodeSt.closed (n : NodeSt) : NodeSt := ⟨n.streams, [], [], [], n.conns ++ n.dead, FMap.empty⟩
 
-def St.init : St := ⟨0, FMap.empty, fun _ => NodeSt.empty, []⟩
+def St.init : St := ⟨0, FMap.empty, fun _ => NodeSt.empty, [], FMap.empty⟩
 
 def upd (f : Nat → NodeSt) (j : Nat) (n : NodeSt) : Nat → NodeSt := fun i => if i = j then n else f i
 
@@ -258,6 +260,9 @@ inductive Ev where
   | close (c : Conn) (k : CloseKind)   -- a connection ends, by one of the paths of `CloseKind`
   | kick (c : Conn)                    -- KickOldControlConnection(c.client, c): evict the node's other connection of the client
   | shutdown (n : Nat)                 -- SessionManager.Close / onClose of node `n`
+  -- `FindClientNode(x)` asked on node `j` is two storage round trips; other events may fall between them:
+  | lookBegin (j x : Nat)              -- … the index read (`storage.Get(clientKey)`)
+  | lookEnd (j x : Nat)                -- … the record read (`GetConnectionState`) and the answer
   | tick (dt : Nat)
   deriving DecidableEq, Repr
 
@@ -335,6 +340,34 @@ def kickOld (st : St) (c : Conn) : St :=
 def shutdownNode (st : St) (n : Nat) : St :=
   { st with nodes := upd st.nodes n (NodeSt.closed (st.nodes n)), down := n :: st.down }
 
+/-- First round trip of `FindClientNode`: the connection id the index names now (`none`: invalid id / no entry —
+the lookup has returned already). -/
+def indexRead (now : Nat) (s : Store) (x : Nat) : Option Conn :=
+  if x = 0 then none else
+  match find now s (.client x) with
+  | none => none
+  | some e =>
+    match e.val with
+    | .id c => some c
+    | .info _ => none
+
+/-- `FindClientNode` is read-only: its two round trips only `Get`.  The model records what the first one saw. -/
+def lookupBegin (st : St) (j x : Nat) : St :=
+  { st with pending := FMap.insert st.pending (j, x) (indexRead st.now st.store x) }
+
+def lookupEnd (st : St) (j x : Nat) : St :=
+  { st with pending := FMap.erase st.pending (j, x) }
+
+/-- Answer of the lookup in flight when its second round trip runs now: the record of the connection READ EARLIER. -/
+def lookupAnswer (P : Params) (st : St) (j x : Nat) : Look :=
+  match FMap.lookup st.pending (j, x) with
+  | some (some c) =>
+    match getConnectionState P st.now st.store c with
+    | .ok i => .found i.nodeID c
+    | .notFound => .notFound
+    | .badType => .badType
+  | _ => .notFound
+
 def step (P : Params) (st : St) : Ev → St
   | .open c => createConnection st c
   | .hs c ok => handleHandshake P st c true ok
@@ -346,16 +379,24 @@ def step (P : Params) (st : St) : Ev → St
   | .close c .sweep => sweepStale P st c
   | .kick c => kickOld st c
   | .shutdown n => shutdownNode st n
+  | .lookBegin j x => lookupBegin st j x
+  | .lookEnd j x => lookupEnd st j x
   | .tick dt => { st with now := st.now + dt }
 
 /-- What the entry point reported: `CreateConnection` / `HandlePacket` returned nil; for the closes: this call
-closed the connection (the Disconnect command and the sweep ignore a connection the registry does not hold). -/
+closed the connection (the Disconnect command and the sweep ignore a connection the registry does not hold);
+for the end of a split lookup: it answered a connection. -/
 def stepOk (st : St) : Ev → Bool
   | .open c => decide (c ∉ (st.nodes c.node).streams)
   | .hs c ok => ok && (decide (c ∈ (st.nodes c.node).ctrl) || decide (c ∈ (st.nodes c.node).conns)) && decide (c ∉ (st.nodes c.node).dead)
   | .hsTunnel c ok => ok && (decide (c ∈ (st.nodes c.node).ctrl) || decide (c ∈ (st.nodes c.node).conns)) && decide (c ∉ (st.nodes c.node).dead)
   | .close c .disconnect => decide (c ∈ (st.nodes c.node).ctrl)
   | .close c .sweep => decide (c ∈ (st.nodes c.node).ctrl)
+  -- the lookup in flight answers a connection (no error) iff the record of the connection it read is visible
+  | .lookEnd j x =>
+    match FMap.lookup st.pending (j, x) with
+    | some (some c) => (find st.now st.store (.conn c)).isSome
+    | _ => false
   | _ => true
 
 /-! ## Observation -/
